@@ -436,6 +436,9 @@ fn nat_type<T: ArrowNativeTypeOp + std::fmt::Display + FromBig>(t: &mut Shards, 
         let all: Vec<BigInt> = (0..256).map(|i| &lo + i).collect();
         let allt = conv(&all);
         for op in NAT_BIN {
+            if !args.thorough() && matches!(op, "div" | "rem") {
+                continue; // div = div_c; rem differs from rem_w on a zero divisor only (kept in the thorough tier)
+            }
             for a in &allt {
                 nat_event(t, op, w, signed, &vec![*a; 256], &allt);
             }
@@ -525,8 +528,11 @@ fn bin_small_exhaustive(t: &mut Shards, rng: &mut Rng, args: &Args, dt: &DataTyp
     let lefts: Vec<BigInt> = if args.thorough() {
         all.clone()
     } else {
-        let mut v = boundary(w, s);
-        for _ in 0..10 {
+        let b = boundary(w, s);
+        let mut v: Vec<BigInt> = b.iter().step_by(3).cloned().collect();
+        v.push(b[0].clone());
+        v.push(b[b.len() - 1].clone());
+        for _ in 0..4 {
             v.push(rng.pick(&all).clone());
         }
         v
@@ -1024,7 +1030,7 @@ fn aggregates(t: &mut Shards, rng: &mut Rng, args: &Args) {
         ($T:ty, $dt:expr, $bits:expr) => {{
             for &n in &lens {
                 for pat in 0..7 {
-                    if !rng.chance(if args.thorough() { 60 } else { 35 }) {
+                    if !rng.chance(if args.thorough() { 60 } else { 25 }) {
                         continue;
                     }
                     let style = *rng.pick(&[Style::Wild, Style::Tame, Style::Half]);
